@@ -106,6 +106,23 @@ public:
 			++queue->queueNotifyCounter;
 		}
 
+		// Every object counts once: a copy registers itself, so that its destruction
+		// does not release the original's registration.
+		DisableQueueNotify(const DisableQueueNotify & other)
+			: queue(other.queue)
+		{
+			++queue->queueNotifyCounter;
+		}
+
+		DisableQueueNotify & operator = (const DisableQueueNotify & other)
+		{
+			if(queue != other.queue) {
+				DisableQueueNotify temp(other);
+				std::swap(queue, temp.queue);
+			}
+			return *this;
+		}
+
 		~DisableQueueNotify()
 		{
 			{
